@@ -93,6 +93,18 @@ def pandasTable (lines : List Str) : Except RErr (Nat × List (List (Option Str)
     let w := r0.length
     .ok (w, rows.map (fun r => padTo w (r.map some)))
 
+/-- `read_nonmem_dataset`, the column block: with `w` columns in the frame and `n` names,
+    w > n: `df.iloc[:, 0:len(colnames)]` keeps the first n columns;
+    w < n: `df[f'__{i}]'] = str(null_value)` appends n - w NULL columns; w = n: nothing to do. -/
+def shapeRow (n w : Nat) (null : Str) (r : List (Option Str)) : List (Option Str) :=
+  (r ++ List.replicate (n - w) (some null)).take n
+
+/-- the frame handed to `_filter_ignore_accept` -/
+def buildTable (n : Nat) (null : Str) (lines : List Str) : Except RErr (List (List (Option Str))) :=
+  match pandasTable lines with
+  | .error e => .error e
+  | .ok (w, rows) => .ok (rows.map (shapeRow n w null))
+
 /-! ### IGNORE / ACCEPT -/
 
 inductive Op where
@@ -158,14 +170,18 @@ def applyFilter (names : List Str) (null missing : Str) (ignore : Bool) (f : Fil
       | .error e => .error e
       | .ok rest => .ok (if b != ignore then r :: rest else rest)
 
+def signedVal (f : Filt) : Bool :=
+  match f.val with
+  | c :: _ => isSign c
+  | [] => false
+
 /-- `for s in statements:` — the filters are applied one after the other. -/
 def applyFilters (names : List Str) (null missing : Str) (ignore : Bool) :
     List Filt → List (List (Option Str)) → Except RErr (List (List (Option Str)))
   | [], rows => .ok rows
   | f :: fs, rows =>
     -- pandas 3.0.5: `` `a a` >= -3 `` on a frame without rows (the converted column then has dtype object)
-    if !f.op.isStr && rows.isEmpty && (match f.val with | c :: _ => isSign c | [] => false) then
-      .error .signedOnEmpty else
+    if !f.op.isStr && rows.isEmpty && signedVal f then .error .signedOnEmpty else
     match applyFilter names null missing ignore f rows with
     | .error e => .error e
     | .ok rows' => applyFilters names null missing ignore fs rows'
@@ -260,13 +276,9 @@ def readDataset (contents : Str) (ic : Char) (names : List Str) (drop : List Boo
   match prefilter ic contents with
   | .error e => .error e
   | .ok lines =>
-  match pandasTable lines with
+  match buildTable names.length null lines with
   | .error e => .error e
-  | .ok (w, rows) =>
-  let n := names.length
-  -- w > n: `df.iloc[:, 0:len(colnames)]` keeps the first n columns;
-  -- w < n: `df[f'__{i}]'] = str(null_value)` appends n - w NULL columns; w = n: nothing to do
-  let rows := rows.map (fun r => (r ++ List.replicate (n - w) (some null)).take n)
+  | .ok rows =>
   let filtered : Except RErr (List (List (Option Str))) :=
     if mode = 0 || filters.isEmpty then .ok rows
     else applyFilters names null missing (mode = 1) filters rows
